@@ -106,6 +106,29 @@ def main():
             violations.append({"what": "two views on one internal directory: the second view recomputed a blob the first one stored"})
         if dds.load("/cfg/shared") != "cfg-value":
             violations.append({"what": "two views: load through view2 failed"})
+        # internal directory and data directory on two different file systems (a rename across them is not possible)
+        other_fs = None
+        for cand in ("/dev/shm", "/run/shm", "/var/tmp"):
+            try:
+                if os.path.isdir(cand) and os.access(cand, os.W_OK) and os.stat(cand).st_dev != os.stat(base).st_dev:
+                    other_fs = tempfile.mkdtemp(prefix="dds_b_config_fs_", dir=cand)
+                    break
+            except OSError:
+                pass
+        if other_fs is not None:
+            try:
+                for (i_dir, d_dir, label) in ((os.path.join(base, "xfs_int"), os.path.join(other_fs, "data"), "data directory on another file system"), (os.path.join(other_fs, "int"), os.path.join(base, "xfs_data"), "internal directory on another file system")):
+                    evals += 1
+                    try:
+                        dds.set_store("local", internal_dir=i_dir, data_dir=d_dir)
+                        v = dds.keep("/cfg/xfs", fn)
+                        l = dds.load("/cfg/xfs")
+                        if v != "cfg-value" or l != "cfg-value":
+                            violations.append({"what": "%s: keep -> %r, load -> %r" % (label, v, l)})
+                    except BaseException as e:
+                        violations.append({"what": "%s: %s: %s" % (label, type(e).__name__, str(e)[:120])})
+            finally:
+                shutil.rmtree(other_fs, ignore_errors=True)
         # the same configuration values given again after the working directory changed (two projects configured the
         # same way from one process): a relative directory names a directory under the working directory of the moment
         for cache in (None, True, 3):
@@ -133,7 +156,7 @@ def main():
         os.chdir(cwd0)
         dds.set_store("memory")
         shutil.rmtree(base, ignore_errors=True)
-    print(json.dumps({"scope": "5 x 5 directory kinds (cache_objects cycling over 6 values) x {same cwd, after chdir, other process} + two data views + the same relative configuration given again after chdir (3 cache settings)", "evaluations": evals, "distinct_nontrivial": evals,
+    print(json.dumps({"scope": "5 x 5 directory kinds (cache_objects cycling over 6 values) x {same cwd, after chdir, other process} + two data views + directories on two file systems (when the machine has a second writable one) + the same relative configuration given again after chdir (3 cache settings)", "evaluations": evals, "distinct_nontrivial": evals,
                       "exhaustive": True, "rule": "one case per (internal_dir kind, data_dir kind)", "samples": samples, "violations": violations[:10], "known_hits": []}))
 
 
